@@ -167,6 +167,8 @@ Library& Library::operator=(const Library& other) &
 static std::vector<std::string> getnames(const char *names)
 {
     std::vector<std::string> ret;
+    if (!names)
+        return ret;
     while (const char *p = std::strchr(names,',')) {
         ret.emplace_back(names, p-names);
         names = p + 1;
@@ -371,7 +373,7 @@ std::string Library::Container::toString(Library::Container::Action action)
 }
 
 Library::Error Library::load(const tinyxml2::XMLDocument &doc)
-{
+try {
     const tinyxml2::XMLElement * const rootnode = doc.FirstChildElement();
 
     if (rootnode == nullptr) {
@@ -508,7 +510,11 @@ Library::Error Library::load(const tinyxml2::XMLDocument &doc)
                 if (!argString)
                     return Error(ErrorCode::MISSING_ATTRIBUTE, "arg");
 
-                mData->mReflection[reflectionnode->GetText()] = strToInt<int>(argString);
+                const char * const callName = reflectionnode->GetText();
+                if (!callName)
+                    return Error(ErrorCode::BAD_ATTRIBUTE_VALUE, "call");
+
+                mData->mReflection[callName] = strToInt<int>(argString);
             }
         }
 
@@ -548,6 +554,8 @@ Library::Error Library::load(const tinyxml2::XMLDocument &doc)
 
                         for (const tinyxml2::XMLElement *e = exporter->FirstChildElement(); e; e = e->NextSiblingElement()) {
                             const std::string ename = e->Name();
+                            if ((ename == "prefix" || ename == "suffix") && !e->GetText())
+                                return Error(ErrorCode::BAD_ATTRIBUTE_VALUE, ename);
                             if (ename == "prefix")
                                 mData->mExporters[prefix].addPrefix(e->GetText());
                             else if (ename == "suffix")
@@ -560,8 +568,11 @@ Library::Error Library::load(const tinyxml2::XMLDocument &doc)
 
                 else if (markupnodename == "imported") {
                     for (const tinyxml2::XMLElement *librarynode = markupnode->FirstChildElement(); librarynode; librarynode = librarynode->NextSiblingElement()) {
-                        if (strcmp(librarynode->Name(), "importer") == 0)
+                        if (strcmp(librarynode->Name(), "importer") == 0) {
+                            if (!librarynode->GetText())
+                                return Error(ErrorCode::BAD_ATTRIBUTE_VALUE, "importer");
                             mData->mImporters[extension].insert(librarynode->GetText());
+                        }
                         else
                             unknown_elements.insert(librarynode->Name());
                     }
@@ -855,6 +866,9 @@ Library::Error Library::load(const tinyxml2::XMLDocument &doc)
         return Error(ErrorCode::UNKNOWN_ELEMENT, str);
     }
     return Error(ErrorCode::OK);
+} catch (const std::runtime_error& e) {
+    // strToInt() on an attribute value of a user configuration
+    return Error(ErrorCode::BAD_ATTRIBUTE_VALUE, e.what());
 }
 
 Library::Error Library::loadFunction(const tinyxml2::XMLElement * const node, const std::string &name, std::set<std::string> &unknown_elements)
@@ -869,6 +883,8 @@ Library::Error Library::loadFunction(const tinyxml2::XMLElement * const node, co
         const std::string functionnodename = functionnode->Name();
         if (functionnodename == "noreturn") {
             const char * const text = functionnode->GetText();
+            if (!text)
+                return Error(ErrorCode::BAD_ATTRIBUTE_VALUE, "noreturn");
             if (strcmp(text, "false") == 0)
                 mData->mNoReturn[name] = LibraryData::FalseTrueMaybe::False;
             else if (strcmp(text, "maybe") == 0)
@@ -932,6 +948,8 @@ Library::Error Library::loadFunction(const tinyxml2::XMLElement * const node, co
                 }
                 if (const char* const argIndirect = functionnode->Attribute("indirect")) {
                     const int indirect = strToInt<int>(argIndirect);
+                    if (indirect < 0 || indirect >= static_cast<int>(ac.direction.size()))
+                        return Error(ErrorCode::BAD_ATTRIBUTE_VALUE, argIndirect);
                     ac.direction[indirect] = dir; // TODO: handle multiple directions/indirect levels
                 }
                 else
